@@ -22,7 +22,10 @@ Inductive hcase :=
 | HCaseRaw (cfg : config) (cls : list client) (steps : list step_rec)
 (* HCaseJwt: access tokens are JWTs (compose.NewOAuth2JWTStrategy); the history model does not describe the JWT strategy's
    whole-second expiry comparison, so only the monitors read these cases *)
-| HCaseJwt (cfg : config) (cls : list client) (steps : list step_rec).
+| HCaseJwt (cfg : config) (cls : list client) (steps : list step_rec)
+(* HCaseContract: the device-code table follows the documented storage contract (an invalidated device code is kept and
+   answered with the stored request and ErrInvalidatedDeviceCode) instead of the reference store's deletion; monitors only *)
+| HCaseContract (cfg : config) (cls : list client) (steps : list step_rec).
 
 Definition ckinds_eqb (a b : list ckind) : bool :=
   Nat.eqb (List.length a) (List.length b) && forallb (fun p => ckind_eqb (fst p) (snd p)) (combine a b).
@@ -59,7 +62,7 @@ Fixpoint corr_from (cfg : config) (s : state) (prev : list (option payload)) (i 
 Definition hist_corr (c : hcase) : option string :=
   match c with
   | HCase cfg cls steps => corr_from cfg (state0 (clients_of cls)) [] 0 steps
-  | HCaseRaw _ _ _ | HCaseJwt _ _ _ => None
+  | HCaseRaw _ _ _ | HCaseJwt _ _ _ | HCaseContract _ _ _ => None
   end.
 
 (* the implementation's trace with full probe vectors, as the monitors read it *)
@@ -70,15 +73,16 @@ Fixpoint expand_from (prev : list (option payload)) (steps : list step_rec) : li
       let pr := apply_delta prev (List.length (o_minted ob)) d in
       (o, ob, pr) :: expand_from pr r
   end.
-Definition impl_trace (c : hcase) := match c with HCase _ _ steps | HCaseRaw _ _ steps | HCaseJwt _ _ steps => expand_from [] steps end.
-Definition case_cfg (c : hcase) : config := match c with HCase cfg _ _ | HCaseRaw cfg _ _ | HCaseJwt cfg _ _ => cfg end.
-Definition case_clients (c : hcase) : list client := match c with HCase _ cls _ | HCaseRaw _ cls _ | HCaseJwt _ cls _ => cls end.
+Definition impl_trace (c : hcase) := match c with HCase _ _ steps | HCaseRaw _ _ steps | HCaseJwt _ _ steps | HCaseContract _ _ steps => expand_from [] steps end.
+Definition case_cfg (c : hcase) : config := match c with HCase cfg _ _ | HCaseRaw cfg _ _ | HCaseJwt cfg _ _ | HCaseContract cfg _ _ => cfg end.
+Definition case_clients (c : hcase) : list client := match c with HCase _ cls _ | HCaseRaw _ cls _ | HCaseJwt _ cls _ | HCaseContract _ cls _ => cls end.
 
 (* the model's own trace for a case (used when a replay is printed) *)
 Definition model_trace (c : hcase) :=
-  match c with HCase cfg cls steps | HCaseRaw cfg cls steps | HCaseJwt cfg cls steps => trace cfg (state0 (clients_of cls)) (map (fun x => fst (fst x)) steps) end.
+  match c with HCase cfg cls steps | HCaseRaw cfg cls steps | HCaseJwt cfg cls steps | HCaseContract cfg cls steps => trace cfg (state0 (clients_of cls)) (map (fun x => fst (fst x)) steps) end.
 
 Definition check_corr_only (c : hcase) : verdict := V (hist_corr c) None.
 
 
 Definition is_jwt_case (c : hcase) : bool := match c with HCaseJwt _ _ _ => true | _ => false end.
+Definition is_contract_case (c : hcase) : bool := match c with HCaseContract _ _ _ => true | _ => false end.
